@@ -7,7 +7,7 @@ HOOK_COMMITS = ["5f02cf6", "372d4f3"]
 # id -> (engine, technique, level text, level note, design_ref)
 CHECKS = {
  "C17": ("vcheck", "exhaustive enumeration of all codes and all mnemonic case variants against a hand-written IANA table (round-trip oracle)",
-         "Exhaustive over the whole finite domain: every 16-bit TYPE/CLASS/QTYPE/QCLASS value, every case variant of every mnemonic and of the TYPE/CLASS prefix for every n, all opcode/RCODE octets, all extended RCODEs. A sampled sub-check repeats the conversions inside histories of 2-15 steps on one fresh thread that also parse text which is no code's text (state left behind by a rejected parse must not matter).",
+         "Exhaustive over the whole finite domain: every 16-bit TYPE/CLASS/QTYPE/QCLASS value, every case variant of every mnemonic and of the TYPE/CLASS prefix for every n, all opcode/RCODE octets, all extended RCODEs. A sampled sub-check repeats the conversions inside histories of 2-15 steps on one fresh thread that also parse text which is no code's text (state left behind by a rejected parse must not matter), and a second one parses from 4-8 threads at once.",
          "Trusts the IANA mnemonic table transcribed in c17.rs.", "§4 C17"),
 }
 
@@ -15,7 +15,7 @@ CHECKS["C14"] = ("vcheck", "exhaustive small-buffer sweep + proptest structured 
     "Exhaustive over all buffers of length <= 5 over the 12 significant octets at every start offset; beyond that generated search (structured pointer/label layouts, names at the 255-octet/127-label limits split into pointer-chained chunks) with shrinking. Every decoding entry point (compressed, skip, uncompressed, validate, *_all) is compared on acceptance, name, label count and length.",
     "Trusts vmodel::wire (unit-tested on the RFC 1035 §4.1.4 example). Search beyond length 5 is sampling.", "§4 C14")
 CHECKS["C16"] = ("vcheck", "proptest generators (names, text, related pairs/triples, builder op sequences) against an independent name model (round-trip, differential, order laws)",
-    "Generated search with shrinking over six sub-checks: Display/FromStr round trip incl. an independent RFC 1035 §5.1 parser and printer, text acceptance, Eq/Hash/Ord/subdomain on related pairs, transitivity on triples, every accessor, NameBuilder histories with a state model.",
+    "Generated search with shrinking over six sub-checks: Display/FromStr round trip incl. an independent RFC 1035 §5.1 parser and printer, text acceptance, Eq/Hash/Ord/subdomain on related pairs, transitivity on triples, every accessor, call sequences on the labels() iterator against a VecDeque (next / next_back / nth / nth_back / skip / len), NameBuilder histories with a state model.",
     "Trusts vmodel::name (unit-tested on the RFC 4034 §6.1 ordering example).", "§4 C16")
 
 CHECKS["C15"] = ("vcheck", "proptest message generator + byte mutator driving random reader call sequences, differential against a cursor model over an independent decoder",
@@ -73,7 +73,7 @@ CHECKS["C09"] = ("vcheck", "proptest requests with 0-2 OPT records anywhere and 
     _S, "§4 C09")
 
 CHECKS["C04"] = ("vcheck", "proptest catalogs with large RRsets/delegations; each query sent over UDP and TCP to the same server; metamorphic/differential: the TCP response is the complete response and fixes the truncation thresholds",
-    "Generated search with shrinking; size limit, TC rules, octet-identity when the complete response fits, sub-multiset relation with all in-bailiwick glue present when only optional data is dropped, TC when the mandatory part does not fit.",
+    "Generated search with shrinking; size limit, TC rules, octet-identity when the complete response fits, sub-multiset relation with all in-bailiwick glue present when only optional data is dropped, TC when the mandatory part does not fit; every third query is repeated with limits at S-1, S and S+n around the size S of the complete response.",
     _S + " Requests without TSIG; TCP SERVFAIL pairs skipped and counted.", "§4 C04")
 CHECKS["C10"] = ("vcheck", "proptest key sets and requests signed by an independent RFC 8945 signer (wrong key/secret/algorithm, truncation, time offsets, tampering); verdict from the request scanner, response MAC recomputed independently, twin comparison with the unsigned request",
     "Generated search with shrinking; six outcome classes (authenticated, BADSIG, BADKEY, BADTIME, MAC-length FORMERR, FORMERR) counted; a second sub-check sizes key name and QNAME (up to 255 octets each) so that the signed response ends within a few octets of the UDP limit; the time-window edge is handled by accepting both verdicts when the server's clock reading inside the exchange could fall on either side.",
@@ -97,7 +97,7 @@ CHECKS["C24"] = ("vcheck", "proptest token soups, random bytes and mutated valid
     "Trusts vmodel::rdata::validate.", "§4 C24")
 
 CHECKS["C25"] = ("vcheck", "proptest trees of zone files written to a scratch directory; round-trip against the generating record list with (path, line) plus a metamorphic relation: fs::Parser over the tree = in-memory Parser over the textual flattening",
-    "Generated search with shrinking over trees of <= 6 files (sub-directories, quoted/escaped/absolute paths, origin arguments, $ORIGIN/$TTL inside includes, records depending on inherited owner/TTL/class/origin right after an include, missing files, depth limits 0-4).",
+    "Generated search with shrinking over trees of <= 6 files (sub-directories, quoted/escaped/absolute paths, origin arguments, $ORIGIN/$TTL inside includes, records depending on inherited owner/TTL/class/origin right after an include, missing files, depth limits 0-4, root opened through a symbolic link to its directory).",
     "Trusts vmodel::zonefile. Flattening is skipped (counted) when the includer's origin is unset at an include, because no directive can reset the origin to 'unset'.", "§4 C25")
 
 _Q = "The library is a generated copy of /repo/src (harness/qshuttle/gen.sh, regenerated on every run) whose only difference is that the `use std::sync / std::thread / std::time` lines of src/thread.rs, src/server/mod.rs and src/server/rrl.rs point at harness/qshuttle/vshim.rs; interleavings are explored at synchronisation operations; schedules are sampled (random + PCT), not enumerated."
